@@ -2,6 +2,7 @@ package gensim
 
 import (
 	"fmt"
+	"os"
 	"math/rand/v2"
 	"sort"
 	"strings"
@@ -267,6 +268,16 @@ func (c *Ctx) judgeSuccess(h *History, o *Obs, g *GenSpec, add func(o *Obs, clas
 		}
 		return nil
 	}
+	if g.Spec != nil && g.Expect == "ok" && len(o.FaultsFired) == 0 {
+		// independent of goverter: every healthy converter of the spec has its output file
+		for i := range g.Spec.Convs {
+			p := g.Spec.Predict(&g.Spec.Convs[i]).Path
+			if _, ok := o.Outputs[p]; !ok {
+				add(o, "exit0-converter-not-written", fmt.Sprintf("exit 0 but converter %s (package %s) has no output file %s", g.Spec.Convs[i].Name, g.Spec.Convs[i].Dir, p))
+				return nil
+			}
+		}
+	}
 	var paths []string
 	for p := range ref.Written {
 		paths = append(paths, p)
@@ -324,7 +335,7 @@ func C17Cases(c *Ctx, rng *rand.Rand, spec *LSpec, withDisk bool, nArgv int) ([]
 		h := &History{World: w1, Loc: rng.IntN(len(locNames))}
 		h.Ops = append(h.Ops, setup())
 		h.Ops = append(h.Ops, editOps("EditTypes+BreakConverters", w1.Files, bad.Render())...)
-		g := &GenSpec{Expect: "fail", Plan: planAll("perm", 0, rng.Uint64())}
+		g := &GenSpec{Expect: "fail", Plan: planAll("perm", 0, rng.Uint64()), Spec: bad}
 		envVariant(rng, g, w1)
 		op := genOp(g)
 		op.Label = "defective=" + strings.Join(lab, ",")
@@ -335,7 +346,7 @@ func C17Cases(c *Ctx, rng *rand.Rand, spec *LSpec, withDisk bool, nArgv int) ([]
 	if withDisk {
 		probe := &History{World: w1, Ops: []Op{setup()}}
 		probe.Ops = append(probe.Ops, editOps("EditTypes", w1.Files, v2.Render())...)
-		probe.Ops = append(probe.Ops, genOp(&GenSpec{Expect: "ok", Plan: planIdentity()}))
+		probe.Ops = append(probe.Ops, genOp(&GenSpec{Expect: "ok", Plan: planIdentity(), Spec: v2}))
 		obs, err := c.Runner.Exec(probe)
 		if err != nil {
 			return nil, err
@@ -369,7 +380,10 @@ func C17Cases(c *Ctx, rng *rand.Rand, spec *LSpec, withDisk bool, nArgv int) ([]
 						h.Ops = append(h.Ops, setup())
 						h.Ops = append(h.Ops, editOps("EditTypes", w1.Files, v2.Render())...)
 					}
-					g := &GenSpec{Expect: "ok", Plan: planIdentity()}
+					g := &GenSpec{Expect: "ok", Plan: planIdentity(), Spec: v2}
+					if !over {
+						g.Spec = spec
+					}
 					// the order of disk calls follows map order at runner.go; keep identity so
 					// that call index k means the same call as in the probe
 					g.Plan.Faults = []verifsim.Fault{f}
@@ -399,7 +413,14 @@ func CheckC17(c *Ctx) (*Outcome, error) {
 		nWorlds, nDisk, nArgv = 300, 120, 16
 	}
 	note := c.noteObs("c17aux")
+	only := -1
+	if v := os.Getenv("VERIF_C17_ONLY"); v != "" {
+		fmt.Sscan(v, &only)
+	}
 	mk := func(i int) ([]*History, error) {
+		if only >= 0 && i != only {
+			return nil, nil
+		}
 		rng := c.Rng("c17-world", i)
 		var spec *LSpec
 		for try := 0; ; try++ {
